@@ -88,6 +88,7 @@ def run(ctx, rep):
         rep.discharged -= 1
         rep.finding(R7, f.key.replace('C06.', 'C01.R7/C06.', 1), f.where, f.construct, f.msg)
     r8(ctx, rep)
+    r9(ctx, rep)
 
 
 def r1(ctx, rep):
@@ -331,3 +332,16 @@ def r8(ctx, rep):
                     if not ok:
                         rep.finding(R8, f'C01.R8/{mod}:{qn}', m.loc(mod, y), qn, why)
     rep.floor('C01.R8', 'two-node targets', n, 3)
+
+
+def r9(ctx, rep):
+    from .. import rulefold
+    R9 = rep.rule('C01.R9', 'IdentityIndiscernability (folded over mock branches): substitutes only into predicate nodes at the identity '
+                            'node\'s world and adds the result at that world')
+    res, cons = rulefold.fold_identity_indiscernability(ctx.m, deep=rep.tier == 'thorough')
+    rep.consult(*cons)
+    for ok, case, detail in res:
+        rep.instance(R9, ok=ok, nontrivial=case)
+        if not ok:
+            rep.finding(R9, f'C01.R9/{case}', cons[0].split(' ')[0], 'cpl.Rules.IdentityIndiscernability._get_node_targets', f'{case}: {detail}')
+    rep.floor('C01.R9', 'identity/predicate branch shapes', len(res), 120)
